@@ -530,6 +530,39 @@ func (p c05) phased(r *core.Result, g *c05rig, transport string, seed uint64, h 
 	atomic.StoreInt32(&c05stall, 0)
 	// conservation at quiescence
 	p.conserve(r, g, tag, nil, got, true)
+	// phase 9 (last: it ends the session): a request is pending when the session ends - the peer finishes it, fails
+	// it or drops the connection. The pending call still completes with its context's error (or, should an answer
+	// have arrived, with that answer) - never with nothing at all.
+	seenQ, _ := g.rs.expect("Q", c05policy{mode: "never"})
+	ctxQ, cancelQ := context.WithTimeout(bg, 400*time.Millisecond)
+	defer cancelQ()
+	chQ := call(ctxQ, "Q-end", "Q")
+	r.Count("calls", 1)
+	if wait(seenQ, "request Q") {
+		end := []string{"finished", "failed", "drop"}[(h+int(seed%3))%3]
+		switch end {
+		case "drop":
+			g.rs.peer.Close()
+		default:
+			_ = g.rs.peer.Send(map[string]interface{}{"id": "c05-session", "from": "srv@verif.local/s", "to": "c05@verif.local/i", "state": end, "reason": map[string]interface{}{"code": 1, "description": "c05"}})
+		}
+		select {
+		case q := <-chQ:
+			switch {
+			case q.err == nil && q.resp == nil:
+				r.Violate("C05/no-result", fmt.Sprintf("%s: a call that was pending when the session ended (%s) returned neither a response nor an error", tag, end))
+			case q.err == nil && q.resp.ID != "Q-end":
+				r.Violate("C05/foreign-response", fmt.Sprintf("%s: a call that was pending when the session ended (%s) returned a response with id %s", tag, end, q.resp.ID))
+			case q.err != nil && (errors.Is(q.err, context.DeadlineExceeded) || errors.Is(q.err, context.Canceled)):
+				r.Count("context_errors", 1)
+				r.Count("pending_at_session_end", 1)
+			default:
+				r.Count("pending_at_session_end_other_error", 1)
+			}
+		case <-time.After(5 * time.Second):
+			r.Violate("C05/calls-blocked", fmt.Sprintf("%s: a call that was pending when the session ended (%s) has not returned 4.6 s after its context's deadline", tag, end))
+		}
+	}
 	r.Fingerprints = append(r.Fingerprints, fmt.Sprintf("phased|%s|k=%d|%s", transport, k, X))
 	if r.Sample == nil {
 		r.Sample = map[string]interface{}{"kind": "phased", "transport": transport, "duplicates_rejected": k, "id": X, "phases": []string{"pending", "duplicates rejected", "answer to original caller", "id reused", "late answer to stream", "unknown id to stream", "duplicate answer: caller + stream", "id reused while the previous call cleans up"}}
